@@ -397,19 +397,28 @@ func TestPropAppendAfterGrpcCreate(t *testing.T) {
 		}
 		// the FileSize attribute: exact, or stale (0 / smaller), as written by clients that do not maintain it
 		attr := uint64(total)
-		stale := rapid.IntRange(0, 2).Draw(t, "attr")
+		stale := rapid.IntRange(0, 3).Draw(t, "attr")
 		if stale == 1 {
 			attr = 0
 		} else if stale == 2 {
 			attr = uint64(rapid.IntRange(0, total).Draw(t, "attrSize"))
+		} else if stale == 3 {
+			// a file extended beyond its chunks (truncate to a bigger size on a mount, or
+			// created with a size and no data): its current end is the FileSize attribute
+			attr = uint64(total + rapid.OneOf(rapid.IntRange(1, 300), rapid.IntRange(1, 70000)).Draw(t, "sparseTail"))
 		}
-		if attr != uint64(total) && vlib.Known("C25-append-uses-stale-filesize-attribute") {
+		if attr < uint64(total) && vlib.Known("C25-append-uses-stale-filesize-attribute") {
 			vlib.Excluded("C25-append-uses-stale-filesize-attribute")
 			attr = uint64(total)
 		}
 		appendSize := rapid.OneOf(rapid.IntRange(1, 300), rapid.IntRange(1, 2*MiB)).Draw(t, "appendSize")
 		seed := rapid.Uint32().Draw(t, "seed")
 		path, want, code := appendAfterGrpcCreate(t, sizes, attr, appendSize, seed)
+		if attr > uint64(total) {
+			// old content, zeros up to the old end, then the appended bytes
+			extra := want[total:]
+			want = append(append(append([]byte{}, want[:total]...), make([]byte, int(attr)-total)...), extra...)
+		}
 		desc := fmt.Sprintf("grpc-create chunks=%v attrFileSize=%d then APPEND size=%d -> %d", sizes, attr, appendSize, code)
 		if code/100 != 2 {
 			t.Fatalf("%s: append rejected", desc)
@@ -422,8 +431,10 @@ func TestPropAppendAfterGrpcCreate(t *testing.T) {
 			t.Fatalf("%s: GET returned %d bytes, want %d (old content followed by the appended bytes); first difference at offset %d", desc, len(body), len(want), firstDiff(body, want))
 		}
 		cls := "append-after-grpc-create"
-		if attr != uint64(total) {
+		if attr < uint64(total) {
 			cls = "append-after-grpc-create-stale-attr"
+		} else if attr > uint64(total) {
+			cls = "append-after-grpc-create-sparse-tail"
 		}
 		vlib.Case(desc, true, cls)
 	})
